@@ -131,6 +131,7 @@ package driver
 //@ func decodeRelease
 //@   props C20 C10
 //@   ensures [result-iff-no-error] (err == nil) == (result != nil)
+//@   ensures [whole-payload-decoded] err == nil ==> GjsonSource == b64d(data) || GjsonSource == gunzip(b64d(data))
 
 //@ func (*Secrets).Get
 //@   props C20 C10
